@@ -39,7 +39,7 @@ var c05 = Register("C05", "C05.parse", func(a c05Args) *Violation {
 	case litUnclaimed:
 		// the statement does not settle these; only "no panic" applies
 		_, _ = d128.Parse(s)
-		var u d128.Decimal
+		u := prior(hashString(s))
 		_ = u.UnmarshalText([]byte(s))
 		st.Class("unclaimed-form")
 		return nil
@@ -51,7 +51,7 @@ var c05 = Register("C05", "C05.parse", func(a c05Args) *Violation {
 		if !errors.Is(err, strconv.ErrSyntax) {
 			return violf("Parse(%s): error %q does not match strconv.ErrSyntax", show, err)
 		}
-		var u d128.Decimal
+		u := prior(hashString(s))
 		if err := u.UnmarshalText([]byte(s)); err == nil || !errors.Is(err, strconv.ErrSyntax) {
 			return violf("UnmarshalText(%s): error %v does not match strconv.ErrSyntax", show, err)
 		}
@@ -66,7 +66,7 @@ var c05 = Register("C05", "C05.parse", func(a c05Args) *Violation {
 	for _, m := range ref.Modes {
 		var d d128.Decimal
 		var err error
-		var u d128.Decimal
+		u := prior(hashString(s) + uint64(m))
 		var uerr error
 		withDefaultMode(m, func() {
 			d, err = d128.Parse(s)
@@ -176,7 +176,7 @@ func checkScan(s string, l literal, parsed d128.Decimal, m d128.RoundingMode) *V
 	if l.Kind == ref.Finite && ref.Decode(parsed).Class == ref.Inf {
 		return nil
 	}
-	var d d128.Decimal
+	d := prior(hashString(s) + 7*uint64(m))
 	n, err := fmt.Sscan(s, &d)
 	if err != nil || n != 1 {
 		return violf("fmt.Sscan(%s) under DefaultRoundingMode=%v: n=%d err=%v", abbr(strconv.Quote(s)), m, n, err)
